@@ -56,20 +56,20 @@ CLAIMED = {
             'crash_safe, complete_from_first_rewrite_on, interrupt_keeps_last_accepted about Model/FileProto.v for every chunking and prefix; truncating_protocol_refuted for the pre-repair protocol. Tie: the real write_smtlib_to_file with open/os wrapped: '
             'disk content read after each event, KeyboardInterrupt at every event index, observed operation history replayed in the extracted model; real runs with a concurrent reader, SIGKILL, SIGINT.',
             'PARTIAL: atomicity of rename(2), CPython buffering and signal timing are assumed/sampled, not proved.', 'DESIGN.md section 4, C06'),
-    'C03': ('Coq proof of termination of the strategy loop under a decreasing measure (well-founded variant, all interleavings) and of the linear iteration bounds of substitute/equality, and of a strictly decreasing measure for the 15 modelled rewrites (no_cycles_partial) + cycle/no-op/grow-and-return search and watchdogged real runs (--check-loops; accept-all command with --no-core)',
+    'C03': ('Coq proof of termination of the strategy loop under a decreasing measure (well-founded variant, all interleavings) and of the linear iteration bounds of substitute/equality, of a strictly decreasing measure for the 15 modelled rewrites (no_cycles_partial) and of a lexicographic (size, disorder) measure for the 6 structural mutators (no_cycles_structural) + cycle/no-op/grow-and-return search and watchdogged real runs (--check-loops; accept-all command with --no-core)',
             'no_infinite_run / sweep_progress / adoptions_bounded about Model/SchedHier.v; subst_refines and eq_sm_refines give explicit fuel bounds for the only unbounded loops reachable from mutators. '
             'Props/C03Measure.v: a polynomial measure mu strictly decreased by every proposal of the 15 modelled rewrites at any position, hence no chain of them returns to a visited input (no_cycles_partial) and chains are bounded by mu. '
             'The global no-cycle claim is false of the code (FAQ) and is searched for the other mutators: every proposal of every mutator on generated inputs (no-ops, hangs), second/third-level proposals (2-/3-cycles), grow-then-return search, real runs with --check-loops and with an accept-all command under a watchdog.',
-            'PARTIAL: absence of cycles is a theorem for 15 of 53 mutators and a bounded search for the rest; the decreasing measure is a hypothesis of the strategy-level termination theorem. Known cycles are listed in known_findings.json.', 'DESIGN.md section 4, C03'),
+            'PARTIAL: absence of cycles is a theorem for 21 of 53 mutators (two separate rankings) and a bounded search for the rest; the decreasing measure is a hypothesis of the strategy-level termination theorem. Known cycles are listed in known_findings.json.', 'DESIGN.md section 4, C03'),
     'C15': ('Coq proof of the generic closure theorem (closed_apply, closed_apply_simp: C07 o C11) and of per-rewrite closure for the 15 modelled rewrites + exhaustive application of every proposal of all 53 mutators on generated and targeted inputs',
             'closed_apply: under NoDup ids and well-formed replacement values the substituted list (and apply_simp with declarations) is well formed and parses back from all four renderings; rw_*_wf for the 15 modelled rewrites; for all 53 mutators closure is also established by correspondence: every proposal of every mutator (all 53 exercised, targeted instances per class) is applied, rendered, '
             're-parsed and compared with the tree in memory; declarations must be fresh and precede their first use.',
-            'PARTIAL: per-mutator closure theorems exist for the 15 mutators modelled in Coq (Model/Rewrites.v); for the other 38 the claim rests on the generic theorem plus the exhaustive-proposal correspondence (replacement values well formed).', 'DESIGN.md section 4, C15'),
+            'PARTIAL: per-mutator closure theorems exist for the 23 mutators modelled in Coq (Model/Rewrites.v, CoreRw.v, LetRw.v; names of SimplifySymbolNames); for the other 30 the claim rests on the generic theorem plus the exhaustive-proposal correspondence (replacement values well formed).', 'DESIGN.md section 4, C15'),
     'C16': ('Coq proof that the modelled sort oracle is sound w.r.t. an independent typing function (get_sort_sound, bv_width_sound, subterm_sound; operator tables regenerated from smtlib.py and checked by computation) + model/implementation correspondence on every typed subterm; replacements re-typed',
             'Spec/Typing.type_of is an executable SMT-LIB typing function written independently of the code; it validates the typed generator and re-types every replacement proposed by Constants / ReplaceByVariable / IntroduceFreshVariable; '
             'get_sort and get_bv_width are compared with the actual sort on every subterm (all theories).',
             'Hypotheses of the theorems (each shown necessary by an Example): declared symbols recorded with their sorts (lookup_agrees, proved for collect_decls), literals and oracle operator names not re-declared (ops_unbound: known finding F29), binders bound once. The structural get_sort cache is not modelled (exercised by correspondence).', 'DESIGN.md section 4, C16'),
-    'C17': ('Coq proofs of value and sort preservation (16 + 15 theorems over Spec/Semantics.eval and Spec/Typing.type_of) for the 15 modelled rewrites + rewrite-model/implementation correspondence on every node + evaluator and z3 cross-check of every (term, replacement) pair of the 21 listed mutators',
+    'C17': ('Coq proofs of value and sort preservation (16 + 15 theorems over Spec/Semantics.eval and Spec/Typing.type_of) for the 15 modelled rewrites and of value preservation for LetSubstitution (rw_let_subst_identity) + rewrite-model/implementation correspondence on every node + evaluator and z3 cross-check of every (term, replacement) pair of the 21 listed mutators',
             'for each mutator of the property\'s list, instances over all widths/indices/notations (incl. formals named like symbols of the actuals); replacements are re-typed by the extracted Spec/Typing.type_of and checked equivalent. '
             'Known finding F19 (variable capture in inlining) is reported as KNOWN-FINDING.',
             'PARTIAL: theorems cover the 15 rewrites modelled in Model/Rewrites.v (Core/Ints/BV); BoolNegateQuantifier, InlineDefinedFuns, LetSubstitution, BVMergeReducedBW, RemoveDatatypeIdentity, FPShortSort are covered by the evaluator/z3 cross-check only. z3 4.8.12 is trusted only for finding counterexamples. n-ary forms are refuted by Examples (outside the documented binary form).', 'DESIGN.md section 4, C17'),
